@@ -196,4 +196,14 @@ CLAIMS["C19"] = {
     "technique": "schema enumeration + branch exhaustiveness + ownership dataflow + idiom search + memo-key dependency analysis (AST)",
 }
 
+CLAIMS["C07"] = {
+    "text": "Decides that every result constructor inside EncodedArray / EncodedRaggedArray passes the operand's own encoding (about 20 sites incl. indexing, ravel, reshape, T, copy, "
+            "iteration, array functions), that both __array_ufunc__ implementations encode every positional and keyword operand with the array's encoding and forward only equal / "
+            "not_equal, that item assignment (plain and ragged) encodes every value - already encoded or not - with the target encoding before storing codes, that copy() copies "
+            "unconditionally, that the ragged text helpers reduce per row with all(), that no comparison is used as a statement, and that no ragged shape is captured before a ravel() of the "
+            "same object and used after it. The clause 'the encoding of the result is the encoding of the operand' and the operand-conversion discipline are structural.",
+    "note": _NOTE + "Not decided: NumPy indexing semantics on ragged views and the resulting values (npstructures).",
+    "technique": "constructor-argument dataflow over the class methods + normal forms of the ufunc / assignment paths + statement-order idiom (AST)",
+}
+
 NOT_APPLICABLE = {}
